@@ -285,6 +285,9 @@ def g_feed(W, ty, adds, pre=(), start=None):
                 e2 = list(o.pc[len(pre):])
                 nxt.append((e2, after if o.kind == "return" else "panic:%s" % o.msg))
         states = nxt
+        if len(states) > 512:
+            raise Unsupported("%s: %d guarded states after %d observations; stream obligations are only built for updates that fork a few ways" %
+                              (ty, len(states), len([1 for _ in adds])))
     return states
 
 
